@@ -423,7 +423,11 @@ def run(ctx):
                 after = cfg.reach(sc, starts=[t["t"]])
                 for ib in incs:
                     if ib in after and b in cfg.reach(sc, starts=[ib]):
-                        counters.append((l, ib))
+                        # ... and it cannot be by-passed: from the call's return, the call is not reached again without it
+                        # (an increment that only sits in a look-for-a-free-label loop in front of the call does not count)
+                        again = cfg.reach(sc, starts=[t["t"]], cut_nodes=frozenset({ib}) | cfg.error_return_blocks(sc))
+                        if b not in again:
+                            counters.append((l, ib))
             held = bool(counters)
             run.instance(R5, {"fn": "scan", "obligation": "the label passed to set_acct_path depends on a counter that is incremented inside the same loop", "counters": ["_%d" % l for l, _ in counters]}, held=held)
             if not held:
